@@ -47,6 +47,30 @@ var c13Marker = boltz.ListSizeKeyName
 type c13Toks struct {
 	t []string
 	p int
+	// mapping tables of the case by content: equal tables are ONE Go map object, in every context and
+	// every phase of the case (stores keep theirs in package level variables)
+	maps map[string]map[string]string
+}
+
+// sharedMap returns the case's map object holding the content of m
+func (s *c13Toks) sharedMap(m map[string]string) map[string]string {
+	keys := make([]string, 0, len(m))
+	for k := range m {
+		keys = append(keys, k)
+	}
+	sort.Strings(keys)
+	var sb strings.Builder
+	for _, k := range keys {
+		sb.WriteString(strconv.Quote(k) + ">" + strconv.Quote(m[k]) + ";")
+	}
+	if s.maps == nil {
+		s.maps = map[string]map[string]string{}
+	}
+	if have, ok := s.maps[sb.String()]; ok {
+		return have
+	}
+	s.maps[sb.String()] = m
+	return m
 }
 
 func (s *c13Toks) next() string {
@@ -484,9 +508,10 @@ func c13WriteDump(s *c13Toks, b *bbolt.Bucket) error {
 }
 
 type c13Checker struct {
-	kind     string // "*", "c", "o"
+	kind     string // "*", "c", "r" (a selection in a representation of c13r.go), "o"
+	repr     string
 	names    []string
-	mappings map[string]string
+	mappings map[string]string // nil for "on": a nil mappings map
 	inner    *c13Checker
 }
 
@@ -501,6 +526,13 @@ func (s *c13Toks) checker() *c13Checker {
 			c.names = append(c.names, string(s.bytes()))
 		}
 		return c
+	case "r":
+		c := &c13Checker{kind: "r", repr: s.next()}
+		n := s.int()
+		for i := 0; i < n; i++ {
+			c.names = append(c.names, string(s.bytes()))
+		}
+		return c
 	case "o":
 		n := s.int()
 		c := &c13Checker{kind: "o", mappings: map[string]string{}}
@@ -511,8 +543,11 @@ func (s *c13Toks) checker() *c13Checker {
 				c.mappings[from] = to
 			}
 		}
+		c.mappings = s.sharedMap(c.mappings)
 		c.inner = s.checker()
 		return c
+	case "on":
+		return &c13Checker{kind: "o", inner: s.checker()}
 	default:
 		panic("bad checker token " + k)
 	}
@@ -528,6 +563,8 @@ func (c *c13Checker) build() boltz.FieldChecker {
 			m[n] = struct{}{}
 		}
 		return m
+	case "r":
+		return c13rBuild(c.repr, c.names)
 	default:
 		inner := c.inner.build()
 		if inner == nil {
@@ -537,13 +574,23 @@ func (c *c13Checker) build() boltz.FieldChecker {
 	}
 }
 
+// buildVia gives ctx the checker the way a store and its strategies do: the base checker put into
+// the context, every wrapper by ctx.WithFieldOverrides (innermost first)
+func (c *c13Checker) buildVia(ctx *boltz.PersistContext) {
+	if c.kind == "o" {
+		c.inner.buildVia(ctx)
+		ctx.WithFieldOverrides(c.mappings)
+		return
+	}
+	ctx.FieldChecker = c.build()
+}
+
 // runOps performs the setter calls of one phase on the entity bucket; returns the GetAndSet* outputs
 func c13RunOps(s *c13Toks, nops int, api string, spec *c13Checker, tb *boltz.TypedBucket) []string {
 	var chk boltz.FieldChecker
 	ctx := &boltz.PersistContext{Id: "e", Bucket: tb}
 	if api == "c" && spec.kind == "o" {
-		ctx.FieldChecker = spec.inner.build()
-		ctx.WithFieldOverrides(spec.mappings)
+		spec.buildVia(ctx)
 		chk = ctx.FieldChecker
 	} else {
 		chk = spec.build()
@@ -1006,7 +1053,7 @@ func c13EntitySections(o *c13Out, db *bbolt.DB, entity func(tx *bbolt.Tx) *boltz
 
 // c13ToSliceTok: MapFieldChecker.ToSlice of a plain map checker, as a set
 func c13ToSliceTok(spec *c13Checker) []string {
-	if spec.kind != "c" {
+	if spec.kind != "c" && !(spec.kind == "r" && c13rIsMapFieldChecker(spec.repr)) {
 		return nil
 	}
 	l := spec.build().(boltz.MapFieldChecker).ToSlice()
